@@ -249,20 +249,17 @@ Theorem bits_roundtrip_Z : forall n fuel, 0 <= n -> (Z.to_nat (integer_length_sp
 Proof. exact bits_roundtrip. Qed.
 Print Assumptions bits_roundtrip_Z.
 
-(** bitwise-fold / bitwise-for-each: kons / proc applied to the bits 0 .. integer-length-1 in that order (i >= 0);
-    for i < 0 the Scheme loop never ends (arithmetic-shift of a negative number never reaches 0) *)
-Theorem bitwise_fold_Z : forall (A : Type) (kons : bool -> A -> A) knil i fuel, 0 <= i ->
+(** bitwise-fold / bitwise-for-each: kons / proc applied to the bits 0 .. integer-length-1 in that order, for ANY integer i
+    (SRFI 151's wording; for negative i this needs fixes/C17-bitwise-fold-negative.patch -- the pinned loop `until (zero? i)`
+    never ends for i < 0) *)
+Theorem bitwise_fold_Z : forall (A : Type) (kons : bool -> A -> A) knil i fuel,
   (Z.to_nat (integer_length_spec i) < fuel)%nat ->
   s_bitwise_fold fuel kons knil i
   = Some (fold_left (fun acc b => kons b acc)
             (map (fun k => Z.testbit i (Z.of_nat k)) (seq 0 (Z.to_nat (integer_length_spec i)))) knil).
 Proof. exact bitwise_fold_ok. Qed.
 Print Assumptions bitwise_fold_Z.
-Theorem bitwise_fold_negative_never_ends : forall (A : Type) (kons : bool -> A -> A) knil i fuel, i < 0 ->
-  s_bitwise_fold fuel kons knil i = None.
-Proof. exact bitwise_fold_negative_diverges. Qed.
-Print Assumptions bitwise_fold_negative_never_ends.
-Theorem bitwise_for_each_Z : forall proc i fuel, 0 <= i -> (Z.to_nat (integer_length_spec i) < fuel)%nat ->
+Theorem bitwise_for_each_Z : forall proc i fuel, (Z.to_nat (integer_length_spec i) < fuel)%nat ->
   s_bitwise_for_each fuel proc i
   = Some (fold_left (fun acc b => proc b)
             (map (fun k => Z.testbit i (Z.of_nat k)) (seq 0 (Z.to_nat (integer_length_spec i)))) false).
@@ -311,7 +308,7 @@ Proof. exact s33_extract_bits. Qed.
 Print Assumptions srfi33_extract_bit_field_Z.
 Theorem srfi33_replace_bit_field_Z : forall size pos nf n k, 0 <= size -> 0 <= pos -> 0 <= k ->
   Z.testbit (s33_replace_bit_field size pos nf n) k
-  = (if inr pos (pos + size) k then false else Z.testbit n k) || Z.testbit nf (k - pos).
+  = if inr pos (pos + size) k then Z.testbit nf (k - pos) else Z.testbit n k.
 Proof. exact s33_replace_bits. Qed.
 Print Assumptions srfi33_replace_bit_field_Z.
 Theorem srfi33_copy_bit_field_Z : forall size pos from to k, 0 <= size -> 0 <= pos -> 0 <= k ->
@@ -319,3 +316,13 @@ Theorem srfi33_copy_bit_field_Z : forall size pos from to k, 0 <= size -> 0 <= p
   = if inr pos (pos + size) k then Z.testbit from k else Z.testbit to k.
 Proof. exact s33_copy_bits. Qed.
 Print Assumptions srfi33_copy_bit_field_Z.
+
+(** SRFI 33 test-bit-field? / clear-bit-field size position n (after fixes/C17-srfi33-field-conventions.patch) *)
+Theorem srfi33_test_bit_field_Z : forall size pos n, 0 <= size -> 0 <= pos ->
+  s33_test_bit_field_p size pos n = false <-> forall k, pos <= k < pos + size -> Z.testbit n k = false.
+Proof. exact s33_test_bits. Qed.
+Print Assumptions srfi33_test_bit_field_Z.
+Theorem srfi33_clear_bit_field_Z : forall size pos n k, 0 <= size -> 0 <= pos -> 0 <= k ->
+  Z.testbit (s33_clear_bit_field size pos n) k = if inr pos (pos + size) k then false else Z.testbit n k.
+Proof. exact s33_clear_bits. Qed.
+Print Assumptions srfi33_clear_bit_field_Z.
